@@ -530,7 +530,7 @@ DUMPS = [
 
 def job_keys(tier):
     """import-time configuration -> number of template processes"""
-    keys = {(2, 10, 100): 16, (3, 10, 100): 8, (1, 10, 100): 2, (2, 10, 1): 2, (2, 8, 1): 2}
+    keys = {(2, 10, 100): 16, (3, 10, 100): 8, (1, 10, 100): 2, (2, 10, 1): 4, (2, 8, 1): 4}
     for n in (1, 2):
         for nf in (7, 8, 9):
             keys[(n, nf, 100)] = 2
@@ -559,7 +559,9 @@ def edge_class(g, ei):
     if e["op"] == "call" and e["mode"] != "neg":
         rows = tuple((("0" if r["tot"] == 0 else "sub" if r["tot"] < st[2] else "sec"), r["back"], r["guest"],
                       r["idle"] == r["tot"], r["idle"] == 0) for r in e["res"])
-        return (cfg, "call", e["t"], e["fn"], e["form"], e["mode"], e["fresh"], rows)
+        # (with the clipped deltas: in the all-vectors dump every vector is its own class)
+        return (cfg, "call", e["t"], e["fn"], e["form"], e["mode"], e["fresh"], rows,
+                json.dumps([r["d"] for r in e["res"]]))
     if e["op"] == "pcall":
         q = e["res"]
         return (cfg, "pcall", e["o"], e["mode"], e.get("first"), (q[0] == 0, q[1] == 0, q[0] > 100 * q[1]))
@@ -576,12 +578,34 @@ def replay_dump(ctx, pools, name, r, per_class, tags, rnd):
     record(ctx, pools, name, jobs, "replayed (transition tour)", tags)
 
 
-def replay_sim(ctx, pools, name, c, num, depth, tags, rnd):
+def simulate(name, c, num, depth, seed, workers=4):
+    """`tlc -simulate`: (TLC result, [(init_state, [ev...])]); runs in a helper thread"""
+    d = tlc.scratch()
+    cfg = os.path.join(d, name + ".cfg")
+    tlc.write_cfg(cfg, c)
+    r = tlc.run("CpuPercent", cfg, workers=workers, timeout=900,
+                simulate="file=%s/b,num=%d" % (d, max(1, num // workers)), depth=depth, seed=seed)
+    out = []
+    for f in sorted(os.listdir(d)):
+        if f.startswith("b_"):
+            beh = tlc.parse_sim_file(os.path.join(d, f))
+            if len(beh) >= 2:
+                # (TLC breaks the line after `|->` in long records; tlc.parse_sim_file
+                # then hands the text back unparsed)
+                evs = [st["ev"] for _, st in beh[1:]]
+                evs = [tlc.parse_value(" ".join(e.split())) if isinstance(e, str) else e for e in evs]
+                out.append((beh[0][1], evs))
+    shutil.rmtree(d, ignore_errors=True)
+    return r, out
+
+
+def replay_sim(ctx, pools, name, fut, tags, rnd):
+    r, behs = fut.result()
+    ctx.tlc(name, r)
+    if not behs:
+        raise core.Machinery("simulation %s produced no behaviours" % name)
     jobs = []
-    for init, events in replay.sim_behaviours(ctx, "CpuPercent", name, c, num, depth):
-        # (TLC breaks the line after `|->` in long records; tlc.parse_sim_file
-        # then hands the text back unparsed)
-        events = [tlc.parse_value(" ".join(e.split())) if isinstance(e, str) else e for e in events]
+    for init, events in behs:
         key = (init["ncpu"], init["nf"], init["clk"])
         jobs.append({"key": list(key), "S": rnd.choice(SCALES), "events": events})
     record(ctx, pools, name, jobs, "simulated", tags)
@@ -907,8 +931,24 @@ def _check(ctx, pools):
         r = tlc.run("CpuPercent", cfg, workers=4, timeout=3000)
         shutil.rmtree(d, ignore_errors=True)
         return r
+    pats = {"idle", "user", "mix", "guest", "back", "backall", "all", "steal", "big", "gonly"}
+    sims = [
+        ("simulate-3threads", consts(NCpuSet={3}, Threads={"main", "t2", "t3"}, Modes={"nb", "block", "neg", "times"},
+                                     Patterns=pats if thorough else {"user", "mix", "guest", "back", "big"},
+                                     BlockPats={"mix", "back"} if thorough else {"back"},
+                                     MaxAdv=8, MaxCalls=4, Objs={"o1", "o2"}, WallSteps={1, 7, 64},
+                                     ProcSteps={0, 1, 100} if thorough else {0, 100}, MaxPCalls=5, MaxTicks=4),
+         3000 if thorough else 240, 30),
+        ("simulate-layouts", consts(NCpuSet={1, 2}, NFSet={7, 8, 9, 10}, Modes={"nb", "block", "times"},
+                                    Patterns={"user", "mix", "guest", "back", "steal", "big"}, BlockPats={"guest", "back"},
+                                    MaxAdv=6, MaxCalls=4), 1600 if thorough else 240, 24),
+        ("simulate-clk1", consts(NFSet={8, 10}, ClkSet={1}, Modes={"nb", "block", "times"},
+                                 Patterns={"user", "mix", "guest", "back", "steal", "big"}, BlockPats={"mix", "back"},
+                                 MaxAdv=6, MaxCalls=4), 600 if thorough else 80, 24),
+    ]
     from concurrent.futures import ThreadPoolExecutor
-    exe = ThreadPoolExecutor(max_workers=3)
+    exe = ThreadPoolExecutor(max_workers=4)
+    sims = [(name, c, n, dp, exe.submit(simulate, name, c, n, dp, ctx.seed)) for name, c, n, dp in sims]
     futs = [(name, c, exe.submit(exhaustive, (name, c))) for name, c in ex]
 
     # the SharesSum law is not vacuous: the transcription of psutil 7.0.0's
@@ -927,23 +967,13 @@ def _check(ctx, pools):
     for name, r in warm(ctx):
         n = len(r.tr)
         phase("load " + name)
-        replay_dump(ctx, pools, name, r, None if (thorough or n < 30000) else 2, tags, rnd)
+        full = thorough or n <= 8000
+        replay_dump(ctx, pools, name, r, None if full else (1 if name == "dump-pairs" else 3), tags, rnd)
         phase("tour " + name)
 
     # (b) simulation: 3 threads, 10 fields, 3 CPUs, deeper
-    simc = consts(NCpuSet={3}, Threads={"main", "t2", "t3"}, Modes={"nb", "block", "neg", "times"},
-                  Patterns={"idle", "user", "mix", "guest", "back", "backall", "all", "steal", "big", "gonly"},
-                  BlockPats={"mix", "back"}, MaxAdv=8, MaxCalls=4, Objs={"o1", "o2"}, WallSteps={1, 7, 64},
-                  ProcSteps={0, 1, 100}, MaxPCalls=5, MaxTicks=4)
-    replay_sim(ctx, pools, "simulate-3threads", simc, 2500 if thorough else 400, 30, tags, rnd)
-    simc2 = consts(NCpuSet={1, 2}, NFSet={7, 8, 9, 10}, Modes={"nb", "block", "times"},
-                   Patterns={"user", "mix", "guest", "back", "steal", "big"}, BlockPats={"guest", "back"},
-                   MaxAdv=6, MaxCalls=4)
-    replay_sim(ctx, pools, "simulate-layouts", simc2, 1500 if thorough else 250, 24, tags, rnd)
-    simc3 = consts(NFSet={8, 10}, ClkSet={1}, Modes={"nb", "block", "times"},
-                   Patterns={"user", "mix", "guest", "back", "steal", "big"}, BlockPats={"mix", "back"},
-                   MaxAdv=6, MaxCalls=4)
-    replay_sim(ctx, pools, "simulate-clk1", simc3, 600 if thorough else 100, 24, tags, rnd)
+    for name, c, n, dp, fut in sims:
+        replay_sim(ctx, pools, name, fut, tags, rnd)
     phase("simulation")
 
     # (c) random driver judged by TLC
